@@ -521,7 +521,7 @@ func TestC20Typed(t *testing.T) {
 // maps, element access), len/regexp/in. Other registered functions (range, sprintf, email, phone, mblen) are
 // outside the statement's quantifier.
 var wildAtoms = []string{"$", "(A)$", "(B)$", "(S)$", "(K)$", "(L)$", "(P)$", "(Q)$", "(M)$", "(N)$", "(P)$[0]", "(L)$[0]", "(L)$[5]", "(M)$['a']", "(S)$[0]", "nil", "true", "false", "0", "1", "0.5", "-0.5", "-1", "''", "'a'", "'0.5'",
-	"len($)", "len((L)$)", "len((P)$)", "len((M)$)", "len((S)$)", "regexp('^a',(S)$)", "regexp('^a')", "regexp('^a',(P)$)", "in($,1,2)", "in((S)$,'a')", "in((L)$,1)", "in((P)$,nil)"}
+	"len($)", "len((L)$)", "len((P)$)", "len((M)$)", "len((S)$)", "regexp('^a',(S)$)", "regexp('^a')", "regexp('^a',(P)$)", "in($,1,2)", "in((S)$,'a')", "in((L)$,1)", "in((P)$,nil)", "in((L)$,(L)$)", "in((M)$,1,(M)$)", "in((N)$,(N)$)"}
 var wildOps = []string{"+", "-", "*", "/", "%", "<", "<=", ">", ">=", "==", "!=", "&&", "||"}
 
 func TestC20Wild(t *testing.T) {
@@ -541,11 +541,16 @@ func TestC20Wild(t *testing.T) {
 	rapid.Check(t, func(t *rapid.T) {
 		n := rapid.IntRange(1, 5).Draw(t, "nAtoms")
 		var sb strings.Builder
+		prev := ""
 		for i := 0; i < n; i++ {
 			if i > 0 {
 				sb.WriteString(rapid.SampledFrom([]string{"", " "}).Draw(t, "sp") + rapid.SampledFrom(wildOps).Draw(t, "op") + rapid.SampledFrom([]string{"", " "}).Draw(t, "sp"))
 			}
 			a := rapid.SampledFrom(wildAtoms).Draw(t, "atom")
+			if i > 0 && rapid.IntRange(0, 3).Draw(t, "sameAsPrevious") == 0 {
+				a = prev // x op x: both operands have the same dynamic type (two slices, two maps, two nil pointers)
+			}
+			prev = a
 			switch rapid.IntRange(0, 5).Draw(t, "wrap") {
 			case 0:
 				a = "(" + a + ")"
@@ -583,6 +588,16 @@ func TestC20Wild(t *testing.T) {
 		if rapid.Bool().Draw(t, "Mset") {
 			e.Field(7).Set(reflect.ValueOf(map[string]int{"a": 1}))
 		}
+		switch rapid.IntRange(0, 4).Draw(t, "N") {
+		case 1:
+			e.Field(8).Set(reflect.ValueOf([]string{"n"}))
+		case 2:
+			e.Field(8).Set(reflect.ValueOf(map[string]bool{}))
+		case 3:
+			e.Field(8).Set(reflect.ValueOf(struct{ F []int }{}))
+		case 4:
+			e.Field(8).Set(reflect.ValueOf(1.5))
+		}
 		e.Field(9).SetInt(int64(rapid.SampledFrom([]int{0, 1, 2}).Draw(t, "X")))
 		rec.Case(n >= 2, ev.HashString(expr, fmt.Sprint(e.Interface())), "wild")
 		func() {
@@ -610,6 +625,21 @@ func TestC20Regress(t *testing.T) {
 			t.Errorf("vd:%q panicked: %s", e, pan)
 		}
 	}
+	// D21: == / != / in() on two operands of the same uncomparable dynamic type (slice, map) panicked
+	type d21 struct {
+		L []int `vd:"(L)$==(L)$ || (M)$!=(M)$ || in((L)$,(L)$) || true"`
+		M map[string]int
+	}
+	func() {
+		defer func() {
+			if r := recover(); r != nil {
+				ev.Fail(prop, "regress", map[string]string{"expr": "(L)$==(L)$ || (M)$!=(M)$ || in((L)$,(L)$) || true"}, fmt.Sprint(r))
+				t.Errorf("D21: binding.Validate panicked: %v", r)
+			}
+		}()
+		rec.Case(true, ev.HashString("d21"), "regress")
+		_ = binding.Validate(&d21{L: []int{1}, M: map[string]int{"a": 1}})
+	}()
 	if acc, _ := validate("7 % 2 == 1 && 7.5 % 2 == 1 && 2 + 3 * 4 == 14 && 1 - 2 - 3 == -4 && 8 / 4 / 2 == 1 && !(1 > 2) || false && true", v); !acc {
 		ev.Fail(prop, "regress", map[string]string{"expr": "precedence smoke"}, "rejected")
 		t.Errorf("precedence smoke expression rejected")
